@@ -89,6 +89,19 @@ def find(fn) -> list:
         den = _Subst(b, 3).visit(copy.deepcopy(n.right))
         arr = _consecutive_difference(den)
         if arr is None:
+            # the total length of the polyline: the last element of a cumulative sum
+            e_ = n.right
+            for _ in range(3):
+                if isinstance(e_, ast.Name) and e_.id in b:
+                    e_ = b[e_.id]
+            if isinstance(e_, ast.Subscript) and norm_src(e_.slice) in ("-1",) and isinstance(e_.value, ast.Name):
+                src_ = b.get(e_.value.id)
+                if src_ is not None and any(isinstance(c_, ast.Call) and (dotted(c_.func) or "").rsplit(".", 1)[-1] == "cumsum" for c_ in ast.walk(src_)):
+                    # only when the dividend is a length along the same polyline (a fraction of the total is being formed)
+                    num_names = {x.id for x in ast.walk(n.left) if isinstance(x, ast.Name)}
+                    if e_.value.id in num_names or any(x in num_names for x in ("new_distances", "cumulative", "cumulative_distances", "xp")):
+                        arr = e_.value.id + " (total length)"
+        if arr is None:
             continue
         # precautions: the division runs under np.errstate; or a guard call / a comparison mentions the divisor (by name or by text) or the quotient
         den_src = norm_src(n.right)
